@@ -133,7 +133,15 @@ fn attrs_of(attrs: &[Attribute]) -> Vec<(Option<String>, String, String, String)
 
 fn compare_trees(rc_root: &RcHandle, dom: &Dom, m_root: Id) -> Result<(), String> {
     let mut stack: Vec<(RcHandle, Id, bool)> = vec![(rc_root.clone(), m_root, false)];
+    // a tree: every RcDom node is reached once (children and template contents included)
+    let mut seen: std::collections::BTreeMap<usize, Id> = std::collections::BTreeMap::new();
     while let Some((r, m, is_template_contents)) = stack.pop() {
+        if let Some(first) = seen.insert(Rc::as_ptr(&r) as usize, m) {
+            return Err(format!(
+                "node {m}: the same RcDom node also stands for model node {first} (shared between two places of the tree{})",
+                if is_template_contents { ", as template contents" } else { "" }
+            ));
+        }
         let mn = dom.n(m);
         let desc = |s: &str| format!("node {m}: {s}");
         match (&r.data, &mn.kind) {
